@@ -106,6 +106,13 @@ theorem takeError_frames_in_bounds (p : Parser) (h : p.error.isSome = true) : fr
   | none => simp [he] at h
   | some e => simp only; exact flush_frames_in_bounds _
 
+/-- regenerated obligation: the end-of-line strip of `stringend` reads `bufstart[1]` / `bufstart[buflen-2]` only when the current
+    length is at least 2, and `bufstart[0]` / `bufstart[buflen-1]` only when it is at least 1 -- so the value of a long string
+    never depends on stale bytes of the reused scratch buffer (the model's `stripLeadingEol` / `stripTrailingEol` pattern-match
+    on the logical buffer, which is exactly these guards). -/
+theorem stringend_reads_in_bounds :
+    stripLeadCRLFGuard = 1 ∧ stripLeadLFGuard = 0 ∧ stripTrailCRLFGuard = 1 ∧ stripTrailLFGuard = 0 := by decide
+
 /-! ## positions -/
 
 theorem feed_pos (scan : List B → Option String) (bs : List B) : ∀ r : Run, Live r →
